@@ -773,6 +773,10 @@ package gedcom
 //@ sweep C14: newNode, NewNode, FamilyNode.addChild, shallowCopyNode, SimpleNameFilter$1, RemoveDuplicateNamesFilter$1
 //@ sweep C14: FamilyNode.SetWifePointer, FamilyNode.SetHusbandPointer, Document.AddIndividual, Document.AddFamily
 //@ sweep C14: simpleDocumentNode.ShallowCopy
+// _UID values come straight from the file: turning one into a UUID slices at
+// fixed offsets, in bounds because the pattern that lets it through has no
+// word shorter than 32 (regexp fact of the literal pattern).
+//@ sweep C14: NewUUIDFromString, UniqueIDNode.UUID
 // The child lookups go through reflection (Compound) and a sync.Map cache
 // (NodesWithTag): outside the engine. Assumed: they return without panicking,
 // write no node field, and NodesWithTag returns no nil element (children lists
